@@ -1225,7 +1225,7 @@ pub struct RwLockWriteGuard<'a, T: ?Sized> {
     value: *mut T,
 }
 
-unsafe impl<T: Send + ?Sized> Send for RwLockWriteGuard<'_, T> {}
+unsafe impl<T: Send + Sync + ?Sized> Send for RwLockWriteGuard<'_, T> {}
 unsafe impl<T: Sync + ?Sized> Sync for RwLockWriteGuard<'_, T> {}
 
 impl<T: ?Sized> Drop for RwLockWriteGuard<'_, T> {
